@@ -261,6 +261,8 @@ func New(cfg Config) *World {
 		WithConsensusParams(*simtestutil.DefaultConsensusParams).
 		WithBlockGasMeter(storetypes.NewInfiniteGasMeter()).
 		WithEventManager(sdk.NewEventManager()).WithLogger(lg)
+	// baseapp also fills the header-info service view of the header (x/upgrade reads heights from it)
+	w.Root = At(w.Root, w.Root.BlockHeight(), w.Root.BlockTime())
 	return w
 }
 
@@ -275,7 +277,9 @@ func At(ctx sdk.Context, height int64, t time.Time) sdk.Context {
 	hd := ctx.BlockHeader()
 	hd.Height = height
 	hd.Time = t
-	return ctx.WithBlockHeader(hd)
+	hi := ctx.HeaderInfo()
+	hi.Height, hi.Time, hi.ChainID = height, t.UTC(), hd.ChainID
+	return ctx.WithBlockHeader(hd).WithHeaderInfo(hi)
 }
 
 // Advance moves ctx by dh blocks of 1.5s... block time is dh*dt.
